@@ -6,6 +6,7 @@ import (
 	"encoding/hex"
 	"fmt"
 	"math"
+	"sync"
 	"time"
 
 	"github.com/cometbft/cometbft/crypto/tmhash"
@@ -63,6 +64,32 @@ type opData struct {
 
 type Driver struct {
 	nearWrap bool
+}
+
+// idsSeen: every record id any path of this process has been given so far (first 256). Reading an id is a
+// function of the chain state alone — an id not created on the path at hand reads as absent, a created one as
+// its record — whatever was read or written before on other branches or on this one. Each state therefore also
+// reads the ids known from elsewhere: a later creation of such an id on this path is then a read-back *after an
+// earlier read of the same id*, which is what a client polling for its record does.
+var idsSeen = struct {
+	sync.Mutex
+	ids []string
+	in  map[string]bool
+}{in: map[string]bool{}}
+
+func noteID(id string) {
+	idsSeen.Lock()
+	defer idsSeen.Unlock()
+	if !idsSeen.in[id] && len(idsSeen.ids) < 256 {
+		idsSeen.in[id] = true
+		idsSeen.ids = append(idsSeen.ids, id)
+	}
+}
+
+func knownIDs() []string {
+	idsSeen.Lock()
+	defer idsSeen.Unlock()
+	return append([]string{}, idsSeen.ids...)
 }
 
 func New() (*mc.Env, mc.Driver) {
@@ -153,6 +180,7 @@ func (d *Driver) Apply(e *mc.Env, s *mc.State, op mc.Op) []mc.Finding {
 			}
 		}
 		m.recs = append(m.recs, rec{ID: resp.Id, Content: od.content, Creator: od.creator, TxHash: txh})
+		noteID(resp.Id)
 	}
 	return fs
 }
@@ -182,6 +210,19 @@ func (d *Driver) Check(e *mc.Env, s *mc.State) []mc.Finding {
 			if !got.Contents[i].Equal(want[i]) {
 				fs = append(fs, mc.F("C19/readback-differs/contents", "id %s contents[%d] %v want %v", r.ID, i, got.Contents[i], want[i]))
 			}
+		}
+	}
+	mine := map[string]bool{}
+	for _, r := range m.recs {
+		mine[r.ID] = true
+	}
+	for _, id := range knownIDs() {
+		if mine[id] {
+			continue
+		}
+		res, err := e.Record.Record(s.Ctx, &recordtypes.QueryRecordRequest{RecordId: id})
+		if err == nil && res.Record != nil && (len(res.Record.Contents) > 0 || res.Record.Creator != "" || res.Record.TxHash != "") {
+			fs = append(fs, mc.F("C19/readable-without-creation", "id %s (created on another path only) reads as %v", id, res.Record))
 		}
 	}
 	// the store holds exactly the records created along the path (nothing deleted, nothing extra)
